@@ -3,7 +3,8 @@ import sys, os
 sys.path.insert(0, os.path.dirname(__file__))
 import facts, mir
 cfg = sys.argv[2] if len(sys.argv) > 2 else "default"
-prog = mir.Program(facts.load(configs=(cfg,), verbose=False)[cfg])
+import inline
+prog = mir.Program(inline.normalise(facts.load(configs=(cfg,), verbose=False)[cfg]))
 for b in prog.find(sys.argv[1], kinds=("fn", "assoc_fn", "closure")) or [x for p, x in prog.bodies.items() if sys.argv[1] in p]:
     print(b.pretty())
     print()
